@@ -31,12 +31,17 @@ CFG = {
     "shrink": [(1, ";")],
     "rule": "exhaustive: all histories of length <=2 over one layer name and a 23-operation alphabet (generic/versioned metadata type x "
             "strategy keep/update/recreate/fail x migration recreate/replace/fail x create/update succeeding with rich results or failing, "
-            "missing exec.d source, restore, corrupted metadata file); directed: create-restore-<every alphabet call>-restore-keep for five "
-            "type combinations; sampled: 2 000 (quick) / 30 000 (thorough) histories of <=10 operations over two or three layer names with "
-            "random results (env entries in all four scopes incl. two process types, exec.d sets, SBOM sets, files and bin/lib directories, "
-            "metadata incl. a tagged minority carrying keys unknown to the versioned type); full snapshot of the layers directory after every "
-            "step. non-trivial = a restore followed by a handle call on a layer handled before, in a history whose results carry a per-process "
-            "env entry; distinct = distinct history",
+            "missing exec.d source, restore, corrupted metadata file); family 'scopes': an env populating all five scope directories, then "
+            "update / recreate (with and without a restore) returning exactly the entries of every one of the 32 subsets of the scopes, "
+            "everything else identical; family 'sets': identical env, every subset of the exec.d programs x SBOMs, with/without the files; "
+            "directed: create-restore-<every alphabet call>-restore-keep for five type combinations; 'dotted': three layers a, a.tools, a.sbom "
+            "populated, restored and then kept/updated/recreated in every order; sampled: 2 000 (quick) / 30 000 (thorough) histories of <=10 "
+            "operations over two or three layer names (half of them the dotted-prefix names) whose successive results on a layer are "
+            "correlated: 3/4 of the results are derived from the layer's previous result by dropping a whole scope (process scopes twice "
+            "as likely), dropping / changing / adding single env entries, exec.d programs, SBOMs or files, or leaving them byte-identical "
+            "(env entries in all four scopes incl. two process types, bin/lib directories, metadata incl. a tagged minority carrying keys "
+            "unknown to the versioned type); full snapshot of the layers directory after every step. non-trivial = a restore followed by a "
+            "handle call on a layer handled before, in a history whose results carry a per-process env entry; distinct = distinct history",
     "trusted_base": ["Spec/TraitSpec.lean is my reading of C02 (classification of the pre-state, decision table, persisted/kept clauses, CNB reading of a layer directory)",
                      "the lifecycle restore between builds is simulated by the harness exactly as the property text fixes it (same simulation as C01)"],
     "assumptions": COMMON_ASSUME + ["a ReplaceMetadata answer decodes as the layer's metadata type (otherwise the real code recurses forever; outside the quantifier)",
